@@ -49,6 +49,9 @@ type C07Op struct {
 	Symlinks bool `json:"symlinks,omitempty"`
 	// NoIdent (full pass): the identifier set handed over is empty (what `coca analysis` does by default)
 	NoIdent bool `json:"no_ident,omitempty"`
+	// DirName: the scanned directory lies below a directory named 1 "build", 2 "target", 3 "out/production"
+	// (a CI checkout location such as /home/ci/build/<repo>): names above the project are not part of it
+	DirName int `json:"dir_name,omitempty"`
 }
 
 type C07Proc struct {
@@ -156,6 +159,9 @@ func genHistory(t *tape.Tape, nFiles int, thorough bool, passes []string) []C07P
 					op.ArgForm = t.Int(1, 3)
 				}
 				op.Symlinks = t.Bool(1, 6)
+				if t.Bool(1, 6) {
+					op.DirName = t.Int(1, 3)
+				}
 				op.NoIdent = op.Pass == "full" && t.Bool(1, 4)
 				if (op.Pass == "bs" || op.Pass == "api") && t.Bool(1, 5) {
 					for k := len(proc.Ops) - 1; k >= 0; k-- {
@@ -259,6 +265,7 @@ func (C07) Assumptions() []string {
 
 type c07run struct {
 	symlinks bool // place() creates symbolic links to files in a side store
+	dirName  int  // newDir() nests the directory below build/, target/, out/production/
 	ctx      *sim.RunCtx
 	sc       *C07Scenario
 	out      *sim.Outcome
@@ -338,7 +345,11 @@ func (r *c07run) addNoise(dir string, n int) {
 
 func (r *c07run) newDir() string {
 	r.seq++
-	d := filepath.Join(r.ctx.Dir, fmt.Sprintf("d%d", r.seq))
+	parent := []string{"", "build", "target", filepath.Join("out", "production")}[r.dirName%4]
+	if parent != "" {
+		r.out.Faults["checkout-below-build-or-target"]++
+	}
+	d := filepath.Join(r.ctx.Dir, parent, fmt.Sprintf("d%d", r.seq))
 	os.MkdirAll(d, 0755)
 	return d
 }
@@ -770,6 +781,7 @@ func (C07) Run(ctx *sim.RunCtx, data json.RawMessage) (*sim.Outcome, error) {
 			d := delivered{files: files}
 			hist = append(hist, fmt.Sprintf("%s%d", op.Pass, len(files)))
 			r.symlinks = op.Symlinks
+			r.dirName = op.DirName
 			switch op.Pass {
 			case "ident", "full":
 				dir := r.newDir()
@@ -853,6 +865,7 @@ func (C07) Run(ctx *sim.RunCtx, data json.RawMessage) (*sim.Outcome, error) {
 				return nil, sim.Harness("unknown pass %q", op.Pass)
 			}
 			r.symlinks = false
+			r.dirName = 0
 			dl = append(dl, d)
 			procIdx = append(procIdx, len(proc.Ops)-1)
 		}
